@@ -429,7 +429,10 @@ fn check_disconnect(w: &mut World, ci: usize, t_end_ns: u64) -> bool {
             let obj_gone = w.clients[ci].dropped_ns.unwrap_or(u64::MAX);
             let next_obj = w.clients.iter().filter(|c| c.addr == addr && c.created_ns > created).map(|c| c.created_ns).min().unwrap_or(u64::MAX);
             let until = (p_disc + 18 * SEC).min(t_end_ns.saturating_sub(p_gap + 200 * MS)).min(obj_gone).min(next_obj);
-            let reqs: Vec<u64> = w.delivered.iter().filter(|d| d.src == e_addr && d.dst == p_addr && matches!(d.frame, Some(RFrame::Disconnect)) && d.t_ns > p_disc && d.t_ns <= until).map(|d| d.t_ns).collect();
+// (a socket whose receive calls fail may still hold a request when the session ends: only
+            // requests the peer has taken out of its socket in time oblige it to answer)
+            let rf = recv_faults(w);
+            let reqs: Vec<u64> = w.delivered.iter().filter(|d| d.src == e_addr && d.dst == p_addr && matches!(d.frame, Some(RFrame::Disconnect)) && d.t_ns > p_disc && d.t_ns <= until && (!rf || d.read_ns.map_or(false, |r| r <= until))).map(|d| d.t_ns).collect();
             if reqs.is_empty() {
                 continue;
             }
@@ -465,7 +468,10 @@ fn check_disconnect(w: &mut World, ci: usize, t_end_ns: u64) -> bool {
             // on a lossy link) gets the retry budget of its own request
             let own_first = w.wire.iter().find(|r| !r.injected && !r.refused && matches!(r.frame, Some(RFrame::Disconnect)) && if *name == "client" { r.src == addr && r.dst == srv && r.t_ns >= created && r.t_ns <= c_gone } else { r.src == srv && r.dst == addr && s_conn_t.map_or(false, |t| r.t_ns >= t) }).map(|r| r.t_ns);
             let start = own_first.map_or(t0, |o| o.max(t0));
-            let deadline = start.saturating_add((22_000u64).max(*timeout_ms).saturating_mul(MS)).saturating_add(12 * gap + SEC);
+            // (receive calls that fail in bursts of up to 1.5 s delay whatever an endpoint does in
+            // reaction to a frame by that much)
+            let rf_slack = if recv_faults(w) { 2 * SEC } else { 0 };
+            let deadline = start.saturating_add((22_000u64).max(*timeout_ms).saturating_mul(MS)).saturating_add(12 * gap + SEC + rf_slack);
             let terminal = evs.iter().find(|e| matches!(e.ev, Ev::Disconnect | Ev::Error(_)));
             match terminal {
                 Some(e) if e.t_ns <= deadline => {}
